@@ -137,28 +137,56 @@ func (o *OutSpec) MakeOut(e *Env, in []interface{}, sh Shape) interface{} {
 		return nil
 	}
 	if sh == ShapeDirtyMeta {
-		if m := metaOf(out); m != nil {
-			e.DirtyMeta(m)
-			return out
+		ms := metasOf(out)
+		if len(ms) == 0 {
+			return nil // no metadata: the shape does not exist
 		}
-		return nil // no metadata: the shape does not exist
+		for _, m := range ms {
+			e.DirtyMeta(m)
+		}
+		return out
 	}
 	FillObject(out, FillPattern)
 	return out
 }
 
-func metaOf(x interface{}) *rlwe.MetaData {
+// MetaHolder is implemented by composite output objects (several ciphertexts) of the table.
+type MetaHolder interface{ Metas() []*rlwe.MetaData }
+
+// metasOf returns the metadata blocks of an output object (all of them for slices / maps / composites).
+func metasOf(x interface{}) []*rlwe.MetaData {
+	var r []*rlwe.MetaData
+	add := func(m *rlwe.MetaData) {
+		if m != nil {
+			r = append(r, m)
+		}
+	}
 	switch o := x.(type) {
 	case *rlwe.Ciphertext:
-		return o.MetaData
+		add(o.MetaData)
 	case *rlwe.Plaintext:
-		return o.MetaData
+		add(o.MetaData)
 	case *rlwe.Element[ring.Poly]:
-		return o.MetaData
+		add(o.MetaData)
 	case *rlwe.Element[ringqp.Poly]:
-		return o.MetaData
+		add(o.MetaData)
+	case []*rlwe.Ciphertext:
+		for _, c := range o {
+			add(c.MetaData)
+		}
+	case map[int]*rlwe.Ciphertext:
+		keys := make([]int, 0, len(o))
+		for k := range o {
+			keys = append(keys, k)
+		}
+		sort.Ints(keys)
+		for _, k := range keys {
+			add(o[k].MetaData)
+		}
+	case MetaHolder:
+		return o.Metas()
 	}
-	return nil
+	return r
 }
 
 // ---------------------------------------------------------------------------------------------
